@@ -4,7 +4,7 @@ P=$(realpath $1); PROP=$2; TIER=${3:-quick}
 cd /repo || exit 2
 git diff --quiet || { echo "/repo has uncommitted changes"; exit 2; }
 git apply "$P" || { echo "patch does not apply"; exit 2; }
-cd /verif && python3 check.py run $PROP $TIER > /tmp/mutant_out.txt 2>&1
+cd /verif && VERIF_EVIDENCE_DIR=/tmp/mutant-evidence python3 check.py run $PROP $TIER > /tmp/mutant_out.txt 2>&1
 RC=$?
 git -C /repo checkout -- .
 grep -E "^(VIOLATION|KNOWN-FINDING|INCONCLUSIVE|C[0-9]+ )" /tmp/mutant_out.txt | head -8
